@@ -2,6 +2,7 @@
 From RJ Require Import Base.Prelude Base.OrderedPlan Model.Settings Model.Core Model.Fs Model.Paths Model.Sync
   Spec.PlanSpec Spec.Mirror Proofs.ExecProofs Proofs.PathsProofs Proofs.MirrorProofs Proofs.IdemProofs Proofs.IdemMain Proofs.InstanceProofs Proofs.RepairMain.
 From RJ Require Import Model.SyncTop.
+From RJ Require Model.Walker Proofs.WalkBridge Proofs.WalkedSync.
 
 (* If a sync returns Ok without skips (and it was no dry run and nothing went through a link), then
    running the same sync again on what it left behind - with any answers, interleaving, listing order
@@ -34,6 +35,24 @@ Theorem C04_idempotent_executable : forall cfg S D a ans bits ex ft ans2 bits2 f
   r_ok r2 = true /\ d_fs (r_dest r2) = d_fs (r_dest r) /\ filter mutating (r_dest_trace r2) = [] /\
   (forall p, ~ In (CGetFileContent p) (r_src_trace r2)) /\ r_prompts r2 = [] /\ stats_nothing (r_stats r2) = true.
 Proof. exact run_top_twice. Qed.
+
+(* ... and with every listing delivered by an arbitrary execution of the directory walk (C17, Proofs/WalkBridge.v),
+   the "nothing went through a link" premise discharged by C02's theorem for every run, and the second destination
+   listing walked over the tree the first run left (which is well-formed: Proofs/WfProofs.v). *)
+Theorem C04_idempotent_walked : forall now_z incl normalize chunker,
+  (forall d, chunker d <> [] /\ concat (chunker d) = d) ->
+  forall dest_fl cfg S D ans bits ls ld ft ans2 bits2 ld2 ft2,
+  wf_fs S -> src_times_set S -> links_roundtrip normalize dest_fl S ->
+  wf_fs (d_fs D) -> unique_keys (d_fs D) -> d_open D = None -> no_through (d_events D) ->
+  WalkedSync.walked now_z incl normalize S ls -> WalkedSync.walked now_z incl normalize (d_fs D) ld ->
+  let r := sync_one now_z normalize chunker cfg S D ans bits ls ld ft in
+  r_ok r = true -> r_skipped r = [] -> r_root_skipped r = false -> cf_dry cfg = false -> cf_fl cfg = dest_fl ->
+  b_same (cf_b cfg) = BSkip ->
+  WalkedSync.walked now_z incl normalize (d_fs (r_dest r)) ld2 ->
+  let r2 := sync_one now_z normalize chunker cfg S (r_dest r) ans2 bits2 ls ld2 ft2 in
+  r_ok r2 = true /\ r_dest r2 = r_dest r /\ filter mutating (r_dest_trace r2) = [] /\
+  (forall p, ~ In (CGetFileContent p) (r_src_trace r2)) /\ r_prompts r2 = [] /\ stats_nothing (r_stats r2) = true.
+Proof. exact WalkedSync.walked_sync_twice. Qed.
 
 (* The two halves, usable on their own: a mirrored destination plans nothing ... *)
 Theorem C04_mirror_plans_nothing : forall now_z incl normalize diff fl S D D' ls ld',
@@ -68,3 +87,4 @@ Print Assumptions C04_idempotent.
 Print Assumptions C04_idempotent_executable.
 Print Assumptions C04_mirror_plans_nothing.
 Print Assumptions C04_link_text_reads_back.
+Print Assumptions C04_idempotent_walked.
